@@ -14,6 +14,7 @@ import (
 	"path/filepath"
 	"strings"
 	"sync"
+	"syscall"
 	"time"
 
 	. "verifh/lib"
@@ -32,6 +33,8 @@ type variant struct {
 	ShortPieces                                 bool `json:",omitempty"` // with Resplit: the first line alone (a file of a few bytes), an empty file, the rest
 	ForceZ                                      bool `json:",omitempty"` // pass -z although no file is gzip: plain files are read from their first byte
 	Stdin                                       bool `json:",omitempty"` // feed the concatenated input on standard input
+	Fifo                                        bool `json:",omitempty"` // the concatenated input through a named pipe given as the file argument (stat size 0, cannot seek)
+	CsvFile                                     bool `json:",omitempty"` // --csv <file> where <file> already holds a longer, older export
 	StdinPauseMs                                int  `json:",omitempty"` // pause in the middle of standard input (forces the 250 ms time flush)
 	StdinBursts                                 int  `json:",omitempty"` // with StdinPauseMs: number of bursts the input is cut into (default 2); every pause lets the 100 ms refresh render mid-stream
 }
@@ -138,6 +141,12 @@ func runVariant(in c03In, v variant, dir string) runObs {
 	}
 	switch {
 	case v.Stdin:
+	case v.Fifo:
+		p := filepath.Join(dir, "pipe.log")
+		if err := syscall.Mkfifo(p, 0o644); err != nil {
+			return runObs{Code: -1, Note: err.Error()}
+		}
+		paths = append(paths, p)
 	case v.Resplit > 0 && v.ShortPieces:
 		first, rest := all, []byte(nil)
 		if i := bytes.IndexByte(all, '\n'); i >= 0 {
@@ -176,6 +185,16 @@ func runVariant(in c03In, v variant, dir string) runObs {
 	}
 	args = append(args, in.Args...)
 	args = append(args, paths...)
+	csvPath := ""
+	if v.CsvFile && in.Cmd != "analyze" {
+		csvPath = filepath.Join(dir, "export.csv")
+		os.WriteFile(csvPath, bytes.Repeat([]byte("stale row of an older export,9\n"), 1500), 0o644)
+		for i := range args {
+			if args[i] == "--csv" && i+1 < len(args) {
+				args[i+1] = csvPath
+			}
+		}
+	}
 	// the last line of a snapshot is the reader status (bytes read and a data RATE, file counters): timing
 	// dependent by design and not part of the result; everything above it is compared
 	dropStatus := func(ob []byte) []byte {
@@ -186,6 +205,10 @@ func runVariant(in c03In, v variant, dir string) runObs {
 		return nil
 	}
 	first := runOnce(in, v, all, args)
+	if csvPath != "" && first.Code >= 0 {
+		b, _ := os.ReadFile(csvPath)
+		first.Stdout = hex.EncodeToString(b) // the export is the file's content, all of it
+	}
 	if in.Cmd == "analyze" {
 		b, _ := hex.DecodeString(first.Stdout)
 		first.Stdout = hex.EncodeToString(dropStatus(b))
@@ -254,6 +277,30 @@ func runOnce(in c03In, v variant, all []byte, args []string) runObs {
 	var stdout, stderr bytes.Buffer
 	cmd.Stdout, cmd.Stderr = &stdout, &stderr
 	done := make(chan error, 1)
+	if v.Fifo {
+		fifo := args[len(args)-1]
+		wdone := make(chan struct{})
+		go func() { // one writer per run; opening blocks until the command opens the pipe for reading
+			defer close(wdone)
+			if f, err := os.OpenFile(fifo, os.O_WRONLY, 0); err == nil {
+				f.Write(all)
+				f.Close()
+			}
+		}()
+		defer func() { // a command that never opened the pipe leaves the writer blocked: let it go
+			select {
+			case <-wdone:
+			default:
+				if fd, err := syscall.Open(fifo, syscall.O_RDONLY|syscall.O_NONBLOCK, 0); err == nil {
+					select {
+					case <-wdone:
+					case <-time.After(2 * time.Second):
+					}
+					syscall.Close(fd)
+				}
+			}
+		}()
+	}
 	cmd.Start()
 	if feed != nil {
 		go feed()
@@ -508,7 +555,11 @@ func genIn(r *Rng) c03In {
 			}
 		case 4:
 			if len(in.Files) == 1 && !in.Files[0].Gzip {
-				v.Stdin = true
+				if r.Bool() {
+					v.Stdin = true
+				} else {
+					v.Fifo = true // rare histo <(cmd): the same bytes through a named pipe
+				}
 			}
 		case 1:
 			// order-sensitive commands: the same bytes on standard input in bursts, so that the 100 ms
@@ -517,6 +568,7 @@ func genIn(r *Rng) c03In {
 				v.Stdin, v.StdinPauseMs, v.StdinBursts = true, 160, 3
 			}
 		}
+		v.CsvFile = cmd != "analyze" && r.Chance(1, 4)
 		in.Variants = append(in.Variants, v)
 	}
 	return in
